@@ -10,7 +10,7 @@ import itertools
 
 import numpy as np
 
-from .. import explore, lut, par
+from .. import explore, gen, lut, par
 from ..runner import violation
 
 PROPERTY = "C06"
@@ -493,6 +493,87 @@ def combos():
         yield {n: v for n, v in zip(names, vals) if v is not None}
 
 
+PLUG2 = "vf_plug2_c06"
+NLARGE = 200003
+
+
+def _plug2_method(ds):
+    return {PLUG2: 2.0 * np.asarray(ds[TMPF]) + 1.0}
+
+
+def _large_case(args):
+    """One long measurement (200003 events): a temporary feature that a
+    plugin feature / the ML class depends on is replaced by an array that
+    differs from the previous one in a single event, at each of a set of
+    positions (first, last, odd, even, prime, around powers of two); the
+    dependent feature read afterwards equals that of a fresh dataset."""
+    import dclab
+    from dclab.definitions import feat_logic
+    from dclab.rtdc_dataset.feat_anc_plugin import PlugInFeature
+    from dclab.rtdc_dataset.feat_anc_core import AncillaryFeature
+    W = "dclab.rtdc_dataset.core:RTDCBase.__getitem__"
+    out = []
+    cnt = 0
+    n = NLARGE
+    if not feat_logic.feature_exists(TMPF):
+        dclab.register_temporary_feature(TMPF)
+    if PLUG2 not in AncillaryFeature.feature_names:
+        PlugInFeature(PLUG2, {"method": _plug2_method,
+                              "feature names": [PLUG2],
+                              "features required": [TMPF],
+                              "scalar feature": [True], "version": "1"})
+    k = np.arange(n)
+    data = {"deform": 0.01 + (k % 97) * 1e-3, "area_um": 50.0 + (k % 53)}
+    pos = sorted({0, 1, 2, 3, 5, 7, 11, 4095, 4097, 65535, 65536, 65537,
+                  99991, 131071, 131072, 131073, n // 2, n // 2 + 1,
+                  n - 3, n - 2, n - 1})
+    case = {"kind": "large"}
+
+    def fresh(tmp, scores):
+        d_ = dclab.new_dataset(dict(data))
+        dclab.set_temporary_feature(d_, TMPF, tmp)
+        for nm, sc in scores.items():
+            dclab.set_temporary_feature(d_, nm, sc)
+        return d_
+    tmp = (k % 17) * 0.5
+    scores = {"ml_score_abc": 0.25 + (k % 2) * 0.5,
+              "ml_score_xyz": np.full(n, 0.5)}
+    try:
+        live = fresh(tmp, scores)
+        np.asarray(live[PLUG2])
+        np.asarray(live["ml_class"])
+        for p_ in pos:
+            cnt += 2
+            tmp = tmp.copy()
+            tmp[p_] += 1000.0
+            dclab.set_temporary_feature(live, TMPF, tmp)
+            sc = scores["ml_score_abc"].copy()
+            sc[p_] = 1.0 - sc[p_]
+            scores = dict(scores, ml_score_abc=sc)
+            dclab.set_temporary_feature(live, "ml_score_abc", sc)
+            ref = fresh(tmp, scores)
+            for feat in (PLUG2, "ml_class"):
+                got = np.asarray(live[feat])
+                want = np.asarray(ref[feat])
+                if not gen.arrays_equal(got, want):
+                    bad_at = np.flatnonzero(~((got == want) | (
+                        np.isnan(got) & np.isnan(want))))
+                    out.append(violation(
+                        W, "stale-value", case,
+                        f"{n} events: after replacing the temporary "
+                        f"feature by an array that differs in event {p_}, "
+                        f"{feat} differs from a fresh dataset at events "
+                        f"{bad_at[:5].tolist()}",
+                        {"feat": feat, "scope": "large-input"}))
+                    return cnt, out
+    except Exception as e:
+        out.append(violation(W, "exception", case,
+                             f"{type(e).__name__}: {e}",
+                             {"exc": type(e).__name__,
+                              "scope": "large-input"}))
+    return cnt, out
+
+
 def run(ctx):
     scratch = ctx.scratch
     lut.register(scratch)
@@ -533,6 +614,10 @@ def run(ctx):
     cres = par.pmap(_combo_case, items)
     for vs in cres:
         viols.extend(vs)
+    lcnt, lvs = par.pmap(_large_case, [()])[0]
+    viols.extend(lvs)
+    cov["large_input_reads"] = lcnt
+    cov["large_input_events"] = NLARGE
     cov["key_combinations"] = len(items)
     cov["traces_validated_against_impl"] += len(items)
     cov["rule"] = ("BFS over set/change/delete of [calculation]/[imaging]/"
@@ -552,6 +637,8 @@ def run(ctx):
 
 
 def replay(case, ctx):
+    if case.get("kind") == "large":
+        return _large_case(())[1]
     if case.get("kind") == "combo":
         return _combo_case((case["keys"], case["with_temp"], case["area"],
                             ctx.scratch))
